@@ -368,16 +368,10 @@ class CommonRD:
         try:
             oldreg = self._by_key[key]
         except KeyError:
+            oldreg = None
             path = self._new_pathtail()
         else:
             path = oldreg.path[len(self.entity_prefix) :]
-            oldreg.delete()
-
-        # this was the brutal way towards idempotency (delete and re-create).
-        # if any actions based on that are implemented here, they have yet to
-        # decide whether they'll treat idempotent recreations like deletions or
-        # just ignore them unless something otherwise unchangeable (ep, d)
-        # changes.
 
         def delete():
             del self._by_path[path]
@@ -397,6 +391,22 @@ class CommonRD:
             proxy_host,
             setproxyremote,
         )
+
+        # Creating the registration validates its parameters and can still
+        # raise; the registration it replaces is only removed once that has
+        # succeeded, so that a re-registration answered with 4.xx leaves the
+        # old one in place.
+        if oldreg is not None:
+            # this is the brutal way towards idempotency (delete and re-create).
+            # if any actions based on that are implemented here, they have yet to
+            # decide whether they'll treat idempotent recreations like deletions or
+            # just ignore them unless something otherwise unchangeable (ep, d)
+            # changes.
+            oldreg.delete()
+            if proxy_host:
+                # the old registration's cleanup has dropped the entry the
+                # new one just made
+                setproxyremote(network_remote)
 
         self._by_key[key] = reg
         self._by_path[path] = reg
